@@ -2,6 +2,7 @@ package main
 
 import (
 	"fmt"
+	"regexp"
 	"go/token"
 	"go/types"
 	"sort"
@@ -491,6 +492,11 @@ func (c *Ctx) symStr(v ssa.Value, depth int) string {
 	case *ssa.IndexAddr:
 		return c.symStr(v.X, depth+1) + "[" + c.symStr(v.Index, depth+1) + "]"
 	case *ssa.Extract:
+		if call, ok := v.Tuple.(*ssa.Call); ok {
+			if s, ok := c.inlineWrapper(call, v.Index, depth); ok {
+				return s
+			}
+		}
 		return c.symStr(v.Tuple, depth+1) + fmt.Sprintf("#%d", v.Index)
 	case *ssa.Call:
 		var a []string
@@ -501,6 +507,10 @@ func (c *Ctx) symStr(v ssa.Value, depth int) string {
 		n = strings.TrimPrefix(n, "builtin.")
 		return n + "(" + strings.Join(a, ",") + ")"
 	case *ssa.Parameter:
+		// a parameter of an unexported helper with exactly one call site stands for that argument
+		if s, ok := c.singleCallArg(v, depth); ok {
+			return s
+		}
 		return "param:" + v.Name()
 	case *ssa.Field:
 		return c.symStr(v.X, depth+1) + "." + fieldName(v.X.Type(), v.Field)
@@ -537,6 +547,8 @@ func (c *Ctx) symStr(v ssa.Value, depth int) string {
 		return "local:" + v.Comment
 	case *ssa.MakeInterface:
 		return c.symStr(v.X, depth+1)
+	case *ssa.TypeAssert:
+		return c.symStr(v.X, depth+1) + ".(" + shortType(v.AssertedType.String()) + ")"
 	case *ssa.Phi:
 		return "phi"
 	}
@@ -894,32 +906,37 @@ func ruleNumberBase(c *Ctx) *RuleResult {
 	return r
 }
 
+var fieldNameRe = regexp.MustCompile(`^unicode\.ToUpper\(unicode/utf8\.DecodeRuneInString\((.+)\)#0\)\+(.+)\[unicode/utf8\.DecodeRuneInString\((.+)\)#1:\]$`)
+
 // H-FIELDNAME: struct fields are matched after upper-casing the first rune.
 func ruleFieldName(c *Ctx) *RuleResult {
-	r := &RuleResult{Doc: "fieldFromStruct looks up unicode.ToUpper(first rune of key) + rest of key (rune-wise, not byte-wise)", Floor: 2}
+	r := &RuleResult{Doc: "fieldFromStruct looks up unicode.ToUpper(first rune of key) + rest of key (rune-wise, not byte-wise)", Floor: 1}
 	fn := c.methodOpt("treeInterpreter", "fieldFromStruct")
 	if fn == nil {
 		lost("fieldFromStruct not found")
 	}
 	want := "unicode.ToUpper(unicode/utf8.DecodeRuneInString(param:key)#0)+param:key[unicode/utf8.DecodeRuneInString(param:key)#1:]"
 	n := 0
-	for _, b := range fn.Blocks {
-		for _, in := range b.Instrs {
-			call, ok := in.(*ssa.Call)
-			if !ok || calleeName(call) != "(reflect.Value).FieldByName" {
-				continue
-			}
-			n++
-			r.Instances++
-			got := c.symStr(call.Call.Args[1], 0)
-			key := fmt.Sprintf("fieldname#%d", n)
-			if got == want {
-				r.ok(key, c.pos(call.Pos()), fname(fn), "looks up "+got)
-			} else {
-				r.viol(key, c.pos(call.Pos()), fname(fn), "looks up "+got+"; wanted "+want)
+	for _, f := range allFuncs(c.SLib) {
+		for _, b := range f.Blocks {
+			for _, in := range b.Instrs {
+				call, ok := in.(*ssa.Call)
+				if !ok || calleeName(call) != "(reflect.Value).FieldByName" {
+					continue
+				}
+				n++
+				r.Instances++
+				got := c.symStr(call.Call.Args[1], 0)
+				key := fmt.Sprintf("fieldname#%d", n)
+				if m := fieldNameRe.FindStringSubmatch(got); got == want || (m != nil && m[1] == m[2] && m[2] == m[3]) {
+					r.ok(key, c.pos(call.Pos()), fname(f), "looks up "+got)
+				} else {
+					r.viol(key, c.pos(call.Pos()), fname(f), "looks up "+got+"; wanted "+want)
+				}
 			}
 		}
 	}
+	_ = fn
 	return r
 }
 
@@ -1015,4 +1032,132 @@ func ruleTwins(c *Ctx) *RuleResult {
 		r.viol("index-twins", pos, fname(fn), "the generic case accesses ["+gen[0]+"] but the reflection twin accesses ["+ref[0]+"]: Go slices would index differently from JSON arrays")
 	}
 	return r
+}
+
+// inlineWrapper: if call targets a library function whose success returns all
+// yield the same expression for result idx (a thin wrapper), render that
+// expression with the wrapper's parameters replaced by the call's arguments.
+func (c *Ctx) inlineWrapper(call *ssa.Call, idx int, depth int) (string, bool) {
+	callee := staticCallee(call)
+	if callee == nil || callee.Pkg != c.SLib || callee.Blocks == nil || depth > 8 {
+		return "", false
+	}
+	if callee.Object() != nil && callee.Object().Exported() {
+		return "", false // API functions and exported methods are rendered by name
+	}
+	n := 0
+	for _, b := range callee.Blocks {
+		n += len(b.Instrs)
+	}
+	if n > 40 {
+		return "", false
+	}
+	var exprs []string
+	errSlot := errIndex(callee.Signature)
+	for _, b := range callee.Blocks {
+		ret := blockReturn(b)
+		if ret == nil {
+			continue
+		}
+		res := retResults(ret)
+		if errSlot >= 0 && errSlot < len(res) && !isNilConst(res[errSlot]) && idx != errSlot {
+			// an error return (or a forwarded error): skip zero-valued companions
+			if k, ok := res[idx].(*ssa.Const); ok && (k.Value == nil) {
+				continue
+			}
+		}
+		if idx >= len(res) {
+			return "", false
+		}
+		exprs = append(exprs, c.symStrSubst(res[idx], callee, call, depth+1))
+	}
+	if len(exprs) == 0 {
+		return "", false
+	}
+	for _, e := range exprs[1:] {
+		if e != exprs[0] {
+			return "", false
+		}
+	}
+	return exprs[0], true
+}
+
+// symStrSubst renders v (a value of callee) with callee's parameters replaced
+// by the arguments of call.
+func (c *Ctx) symStrSubst(v ssa.Value, callee *ssa.Function, call *ssa.Call, depth int) string {
+	if c.subst == nil {
+		c.subst = map[*ssa.Parameter]ssa.Value{}
+	}
+	var saved []*ssa.Parameter
+	for i, p := range callee.Params {
+		if i < len(call.Call.Args) {
+			if _, busy := c.subst[p]; !busy {
+				c.subst[p] = call.Call.Args[i]
+				saved = append(saved, p)
+			}
+		}
+	}
+	s := c.symStr(v, depth)
+	for _, p := range saved {
+		delete(c.subst, p)
+	}
+	return s
+}
+
+// singleCallArg: the argument a parameter stands for, when known.
+func (c *Ctx) singleCallArg(p *ssa.Parameter, depth int) (string, bool) {
+	if depth > 8 {
+		return "", false
+	}
+	if v, ok := c.subst[p]; ok {
+		delete(c.subst, p)
+		s := c.symStr(v, depth+1)
+		c.subst[p] = v
+		return s, true
+	}
+	fn := p.Parent()
+	if fn == nil || fn.Pkg != c.SLib || (fn.Object() != nil && fn.Object().Exported()) {
+		return "", false
+	}
+	if c.helperSites == nil {
+		c.helperSites = map[*ssa.Function][]*ssa.Call{}
+		for _, f := range allFuncs(c.SLib) {
+			for _, b := range f.Blocks {
+				for _, in := range b.Instrs {
+					if call, ok := in.(*ssa.Call); ok {
+						if sc := staticCallee(call); sc != nil && sc.Pkg == c.SLib {
+							c.helperSites[sc] = append(c.helperSites[sc], call)
+						}
+					}
+				}
+			}
+		}
+	}
+	sites := c.helperSites[fn]
+	if len(sites) == 0 {
+		return "", false
+	}
+	idx := -1
+	for i, q := range fn.Params {
+		if q == p {
+			idx = i
+		}
+	}
+	if idx < 0 || (idx == 0 && fn.Signature.Recv() != nil) {
+		return "", false // receivers keep their name: rules speak about "the lexer", "the parser"
+	}
+	// all call sites must pass the same rendered argument
+	var first string
+	for i, s := range sites {
+		if idx >= len(s.Call.Args) || s.Parent() == fn {
+			return "", false
+		}
+		r := c.symStr(s.Call.Args[idx], depth+1)
+		if i == 0 {
+			first = r
+		} else if r != first {
+			return "", false
+		}
+	}
+	return first, true
 }
